@@ -12,6 +12,7 @@ import (
 	"path/filepath"
 	"strings"
 	"sync"
+	"sync/atomic"
 	"time"
 
 	"github.com/rqlite/rqlite/v10/command/proto"
@@ -246,6 +247,23 @@ func doOp(op string, arg int) (note string, err error) {
 		return "", err
 	case "install":
 		return doInstall(arg)
+	case "reap-crash":
+		// the process dies at the k-th hit of a hook inside the reap (plan written,
+		// WAL renamed for its checkpoint, between plan ops, before the plan file is
+		// removed); the driver restarts the worker, which resumes the plan
+		pts := []string{"reap.after_plan_write", "plan.ckpt.after_rename", "plan.ckpt.after_remove", "plan.op.after", "plan.op.before", "reap.before_plan_remove"}
+		pt := pts[arg%len(pts)]
+		k := int64(1 + (arg/len(pts))%3)
+		var hits atomic.Int64
+		vexport.HookOn(pt, func() {
+			if hits.Add(1) == k {
+				fmt.Fprintf(os.Stderr, "c04: designed crash at %s hit %d\n", pt, k)
+				os.Exit(197)
+			}
+		})
+		defer vexport.HookOn(pt, nil)
+		_, _, err := s.Reap()
+		return fmt.Sprintf("no crash (%s not reached %d times)", pt, k), err
 	case "restart", "restart-snap":
 		s.NoSnapshotOnClose = op == "restart"
 		if err := wnode.Close(); err != nil {
@@ -420,21 +438,22 @@ type step struct {
 }
 
 type seqResult struct {
-	Case      int    `json:"case"`
-	Steps     []step `json:"steps"`
-	Verifies  int    `json:"verifications"`
-	Problem   string `json:"problem,omitempty"`
-	Key       string `json:"key,omitempty"`
-	Diff      string `json:"diff,omitempty"`
-	Inconcl   string `json:"inconclusive,omitempty"`
-	Skipped   int    `json:"persist_skipped"`
-	Installs  int    `json:"snapshots_installed"`
-	Died      int    `json:"process_exits_by_design"`
-	MaxStaged int    `json:"max_staged_wals"`
+	Case        int    `json:"case"`
+	Steps       []step `json:"steps"`
+	Verifies    int    `json:"verifications"`
+	Problem     string `json:"problem,omitempty"`
+	Key         string `json:"key,omitempty"`
+	Diff        string `json:"diff,omitempty"`
+	Inconcl     string `json:"inconclusive,omitempty"`
+	Skipped     int    `json:"persist_skipped"`
+	Installs    int    `json:"snapshots_installed"`
+	ReapCrashes int    `json:"crashes_inside_reap"`
+	Died        int    `json:"process_exits_by_design"`
+	MaxStaged   int    `json:"max_staged_wals"`
 }
 
 var alphabet = []string{"write-small", "write-small", "write-heavy", "write-heavy", "snapshot", "snapshot", "ghost-join", "ghost-remove",
-	"snapshot-close-fails-early", "snapshot-close-fails-late", "load", "boot", "reap", "restart", "restart-snap", "install"}
+	"snapshot-close-fails-early", "snapshot-close-fails-late", "load", "boot", "reap", "restart", "restart-snap", "install", "reap-crash"}
 
 func genSeq(c *vf.Ctx, i int) []step {
 	r := c.Rand(uint64(i))
@@ -443,6 +462,8 @@ func genSeq(c *vf.Ctx, i int) []step {
 	motifs := [][]string{
 		// a staged WAL that never reached the store, then a snapshot installed from a Leader
 		{"write-heavy", "snapshot", "write-heavy", "ghost-join", "write-heavy", "install", "write-small", "snapshot", "write-heavy", "snapshot"},
+		// a reap of a full snapshot plus incrementals, killed half-way and resumed on restart
+		{"write-heavy", "snapshot", "write-heavy", "snapshot", "write-small", "snapshot", "reap-crash", "write-small", "snapshot"},
 		{"write-heavy", "ghost-join", "write-heavy", "load", "write-small", "snapshot", "write-heavy", "snapshot"},
 		{"write-heavy", "ghost-join", "write-heavy", "boot", "write-small", "snapshot", "write-heavy", "snapshot"},
 		{"write-heavy", "ghost-join", "write-heavy", "snapshot", "write-heavy", "ghost-remove", "snapshot"},
@@ -470,7 +491,11 @@ func genSeq(c *vf.Ctx, i int) []step {
 	for j := 0; j < n; j++ {
 		if j == at {
 			for k, op := range motif {
-				steps = append(steps, step{Op: op, Arg: 5000 + k + 100*i})
+				arg := 5000 + k + 100*i
+				if op == "reap-crash" {
+					arg = 1 + 6*(i%3) // after the WAL rename of the 1st..3rd checkpoint
+				}
+				steps = append(steps, step{Op: op, Arg: arg})
 			}
 		}
 		steps = append(steps, step{Op: alphabet[r.IntN(len(alphabet))], Arg: 1 + j + 100*i})
@@ -493,10 +518,14 @@ func classify(steps []step) string {
 			if s.Note == "installed" {
 				seen["install"] = true
 			}
+		case "reap-crash":
+			if s.Note == "process killed inside the reap" {
+				seen["reap-crash"] = true
+			}
 		}
 	}
 	var ks []string
-	for _, k := range []string{"skipped-persist", "install", "snapshot-close-fails-early", "snapshot-close-fails-late", "load", "boot", "reap", "restart", "restart-snap"} {
+	for _, k := range []string{"skipped-persist", "install", "reap-crash", "snapshot-close-fails-early", "snapshot-close-fails-late", "load", "boot", "reap", "restart", "restart-snap"} {
 		if seen[k] {
 			ks = append(ks, k)
 		}
@@ -549,7 +578,16 @@ func runSeq(c *vf.Ctx, tmp string, i int, steps []step) (res seqResult) {
 			p.Wait()
 			lb, _ := os.ReadFile(logPath)
 			designed := strings.Contains(string(lb[max(0, len(lb)-4000):]), "failure during incremental snapshot, exiting process")
-			if (st.Op == "snapshot-close-fails-late" || st.Op == "snapshot-close-fails-early") && designed {
+			if st.Op == "reap-crash" && strings.Contains(string(lb[max(0, len(lb)-4000):]), "c04: designed crash at") {
+				res.ReapCrashes++
+				cur.Note = "process killed inside the reap"
+				if err := start(); err != nil {
+					res.Problem = "node does not restart after a crash inside a reap: " + err.Error()
+					res.Key = "restart-failed-after:reap-crash"
+					p = nil
+					return
+				}
+			} else if (st.Op == "snapshot-close-fails-late" || st.Op == "snapshot-close-fails-early") && designed {
 				// by design: any failure of an incremental sink's Close exits the process
 				res.Died++
 				cur.Note = "process exited (by design)"
@@ -609,8 +647,8 @@ func runSeq(c *vf.Ctx, tmp string, i int, steps []step) (res seqResult) {
 }
 
 func run(c *vf.Ctx) {
-	c.Rule("sequence = write-small, snapshot, then 12 (quick) / 20 (thorough) seeded ops (every second sequence with one of 15 directed motifs spliced in, e.g. page-heavy write, skipped persist, page-heavy write, load, write, snapshot, write, snapshot) over {small write batch, page-heavy batch overwriting earlier pages in several tables, user snapshot, join of an unreachable non-voter followed at once by a snapshot (Raft then skips Persist and rqlite keeps the staged WAL), remove it, snapshot whose sink Close is made to fail before the staged WAL is consumed, snapshot whose sink Close fails after (process exits by design, worker restarted), load, boot, reap, restart with and without snapshot-on-close, snapshot install (two helper voters join, one takes over leadership, the node under test is cut off while the helper Leader overwrites pages and truncates its log with a snapshot, the link heals so that the node under test installs that snapshot as a lagging follower, then leadership is handed back and the helpers are removed)} on a real Store that is a single-node cluster between ops; after EVERY op the raft directory is copied without db.sqlite*, clean_snapshot and the WAL staging dir, a fresh Store is opened on the copy (restore newest snapshot, replay log) and its logical dump must equal the live database's. non-trivial = sequence that contained a skipped persist, a failed close, a load/boot or a reap; distinct by op sequence")
-	nSeq := c.N(12, 160)
+	c.Rule("sequence = write-small, snapshot, then 12 (quick) / 20 (thorough) seeded ops (every second sequence with one of 16 directed motifs spliced in, e.g. page-heavy write, skipped persist, page-heavy write, load, write, snapshot, write, snapshot) over {small write batch, page-heavy batch overwriting earlier pages in several tables, user snapshot, join of an unreachable non-voter followed at once by a snapshot (Raft then skips Persist and rqlite keeps the staged WAL), remove it, snapshot whose sink Close is made to fail before the staged WAL is consumed, snapshot whose sink Close fails after (process exits by design, worker restarted), load, boot, reap, reap during which the process is killed at a seeded hook hit (plan written / WAL renamed for its checkpoint / between plan ops / before the plan file is removed) and restarted, restart with and without snapshot-on-close, snapshot install (two helper voters join, one takes over leadership, the node under test is cut off while the helper Leader overwrites pages and truncates its log with a snapshot, the link heals so that the node under test installs that snapshot as a lagging follower, then leadership is handed back and the helpers are removed)} on a real Store that is a single-node cluster between ops; after EVERY op the raft directory is copied without db.sqlite*, clean_snapshot and the WAL staging dir, a fresh Store is opened on the copy (restore newest snapshot, replay log) and its logical dump must equal the live database's. non-trivial = sequence that contained a skipped persist, a failed close, a load/boot or a reap; distinct by op sequence")
+	nSeq := c.N(14, 160)
 	tmp := vf.TempDir("c04")
 	defer os.RemoveAll(tmp)
 	if c.ReplayFile != "" {
@@ -659,6 +697,7 @@ func run(c *vf.Ctx) {
 		c.Count("verifications", int64(res.Verifies))
 		c.Count("persist_skipped", int64(res.Skipped))
 		c.Count("snapshots_installed_from_a_leader", int64(res.Installs))
+		c.Count("crashes_inside_reap", int64(res.ReapCrashes))
 		c.Count("designed_process_exits", int64(res.Died))
 		if res.MaxStaged > 1 {
 			c.Count("sequences_with_multiple_staged_wals", 1)
